@@ -59,12 +59,12 @@ def params234 (c : Cfg) (v : Int) (o u : Bytes) : Params :=
 
 /-- `compute_encryption_key` is Algorithm 2 of the standard. -/
 theorem computeKey_is_alg2 (P : Prims) (c : Cfg) (v : Int) (o u pw : Bytes)
-    (hr : c.r = 2 ∨ c.r = 3 ∨ c.r = 4) (hp : -4294967296 ≤ c.p) :
+    (hr : c.r = 2 ∨ c.r = 3 ∨ c.r = 4) :
     computeEncryptionKey P (params234 c v o u) c.length (uintValue32 c.p) pw
       = alg2Key P c (pad32 pw) o := by
   unfold computeEncryptionKey alg2Key
   simp only [params234]
-  rw [padPassword_eq, pBytes_eq c.p hp, keyBytes_eq c hr]
+  rw [padPassword_eq, pBytes_eq c.p, keyBytes_eq c hr]
   rfl
 
 /-- Algorithm 6 accepts the U that Algorithms 4/5 produce from the same key. -/
@@ -92,12 +92,12 @@ theorem verifyKey_writer (P : Prims) (hP : PrimsOK P) (c : Cfg) (v : Int) (o key
     standard's Algorithms 2-5 produce from any user/owner password pair, P, ID and EncryptMetadata
     setting, `authenticate_user_password(user)` returns exactly that file key. -/
 theorem user_pw_accepts (P : Prims) (hP : PrimsOK P) (c : Cfg) (v : Int) (userPw ownerPw tail : Bytes)
-    (hr : c.r = 2 ∨ c.r = 3 ∨ c.r = 4) (hp : -4294967296 ≤ c.p) :
+    (hr : c.r = 2 ∨ c.r = 3 ∨ c.r = 4) :
     authUser P (params234 c v (derive234 P c (pad32 userPw) (pad32 ownerPw) tail).1
         (derive234 P c (pad32 userPw) (pad32 ownerPw) tail).2.1) c.length (uintValue32 c.p) userPw
       = some (derive234 P c (pad32 userPw) (pad32 ownerPw) tail).2.2 := by
   have hk := computeKey_is_alg2 P c v (alg3O P c (pad32 ownerPw) (pad32 userPw))
-    (alg45U P c (alg2Key P c (pad32 userPw) (alg3O P c (pad32 ownerPw) (pad32 userPw))) tail) userPw hr hp
+    (alg45U P c (alg2Key P c (pad32 userPw) (alg3O P c (pad32 ownerPw) (pad32 userPw))) tail) userPw hr
   have hv := verifyKey_writer P hP c v (alg3O P c (pad32 ownerPw) (pad32 userPw))
     (alg2Key P c (pad32 userPw) (alg3O P c (pad32 ownerPw) (pad32 userPw))) tail hr
   show authUser P (params234 c v (alg3O P c (pad32 ownerPw) (pad32 userPw))
@@ -135,7 +135,7 @@ theorem owner_recovers_user (P : Prims) (c : Cfg) (v : Int) (u ownerPw pu : Byte
 /-- **The owner password opens the document** (revisions 2-4):
     `authenticate_owner_password(owner)` returns the file key. -/
 theorem owner_pw_accepts (P : Prims) (hP : PrimsOK P) (c : Cfg) (v : Int) (userPw ownerPw tail : Bytes)
-    (hr : c.r = 2 ∨ c.r = 3 ∨ c.r = 4) (hp : -4294967296 ≤ c.p) :
+    (hr : c.r = 2 ∨ c.r = 3 ∨ c.r = 4) :
     authOwner P (params234 c v (derive234 P c (pad32 userPw) (pad32 ownerPw) tail).1
         (derive234 P c (pad32 userPw) (pad32 ownerPw) tail).2.1) c.length (uintValue32 c.p) ownerPw
       = some (derive234 P c (pad32 userPw) (pad32 ownerPw) tail).2.2 := by
@@ -144,7 +144,7 @@ theorem owner_pw_accepts (P : Prims) (hP : PrimsOK P) (c : Cfg) (v : Int) (userP
     ownerPw (pad32 userPw) hr
   have hk := computeKey_is_alg2 P c v (alg3O P c (pad32 ownerPw) (pad32 userPw))
     (alg45U P c (alg2Key P c (pad32 userPw) (alg3O P c (pad32 ownerPw) (pad32 userPw))) tail)
-    (pad32 userPw) hr hp
+    (pad32 userPw) hr
   rw [pad32_pad32] at hk
   have hv := verifyKey_writer P hP c v (alg3O P c (pad32 ownerPw) (pad32 userPw))
     (alg2Key P c (pad32 userPw) (alg3O P c (pad32 ownerPw) (pad32 userPw))) tail hr
@@ -161,22 +161,21 @@ theorem owner_pw_accepts (P : Prims) (hP : PrimsOK P) (c : Cfg) (v : Int) (userP
     < 256): the document opens with the file key.  `8 ≤ length`: the key is not empty. -/
 theorem authenticate_user_accepts (P : Prims) (hP : PrimsOK P) (c : Cfg) (v : Int)
     (userCps : List Nat) (userPw ownerPw tail : Bytes)
-    (hr : c.r = 2 ∨ c.r = 3 ∨ c.r = 4) (hp : -4294967296 ≤ c.p) (hp0 : c.p ≠ 0) (hp32 : c.p < 4294967296)
+    (hr : c.r = 2 ∨ c.r = 3 ∨ c.r = 4)
     (hl : 8 ≤ c.length) (henc : encodeLatin1 userCps = some userPw) :
     authenticate234 P (params234 c v (derive234 P c (pad32 userPw) (pad32 ownerPw) tail).1
         (derive234 P c (pad32 userPw) (pad32 ownerPw) tail).2.1) c.length (uintValue32 c.p) userCps
       = .ok (derive234 P c (pad32 userPw) (pad32 ownerPw) tail).2.2 := by
-  have h := user_pw_accepts P hP c v userPw ownerPw tail hr hp
+  have h := user_pw_accepts P hP c v userPw ownerPw tail hr
   unfold authenticate234
   rw [henc]
-  have hp' : ¬ uintValue32 c.p ≥ 4294967296 := by unfold uintValue32; split <;> omega
   have hkb : ∀ r : Int, ¬ keyBytes r c.length = 0 := by
     intro r
     unfold keyBytes BITS_PER_KEY_BYTE KEY_BYTES_R2
     by_cases h3 : r ≥ 3
     · rw [if_pos h3]; omega
     · rw [if_neg h3]; omega
-  simp only [hp', hkb _, if_false, h]
+  simp only [hkb _, if_false, h]
 
 /-- `authenticate` with the **owner** password.  The code tries the user path first, so the single
     remaining assumption is that the owner password is not *also* accepted by the U check with a
@@ -184,7 +183,7 @@ theorem authenticate_user_accepts (P : Prims) (hP : PrimsOK P) (c : Cfg) (v : In
     `C10_rejects_writer_partial`); when both passwords pad to the same 32 bytes nothing is assumed. -/
 theorem authenticate_owner_accepts_partial (P : Prims) (hP : PrimsOK P) (c : Cfg) (v : Int)
     (ownerCps : List Nat) (userPw ownerPw tail : Bytes)
-    (hr : c.r = 2 ∨ c.r = 3 ∨ c.r = 4) (hp : -4294967296 ≤ c.p) (hp0 : c.p ≠ 0) (hp32 : c.p < 4294967296)
+    (hr : c.r = 2 ∨ c.r = 3 ∨ c.r = 4)
     (hl : 8 ≤ c.length) (henc : encodeLatin1 ownerCps = some ownerPw)
     (hU : authUser P (params234 c v (derive234 P c (pad32 userPw) (pad32 ownerPw) tail).1
             (derive234 P c (pad32 userPw) (pad32 ownerPw) tail).2.1) c.length (uintValue32 c.p) ownerPw = none
@@ -192,11 +191,10 @@ theorem authenticate_owner_accepts_partial (P : Prims) (hP : PrimsOK P) (c : Cfg
     authenticate234 P (params234 c v (derive234 P c (pad32 userPw) (pad32 ownerPw) tail).1
         (derive234 P c (pad32 userPw) (pad32 ownerPw) tail).2.1) c.length (uintValue32 c.p) ownerCps
       = .ok (derive234 P c (pad32 userPw) (pad32 ownerPw) tail).2.2 := by
-  have hu := user_pw_accepts P hP c v userPw ownerPw tail hr hp
-  have ho := owner_pw_accepts P hP c v userPw ownerPw tail hr hp
+  have hu := user_pw_accepts P hP c v userPw ownerPw tail hr
+  have ho := owner_pw_accepts P hP c v userPw ownerPw tail hr
   unfold authenticate234
   rw [henc]
-  have hp' : ¬ uintValue32 c.p ≥ 4294967296 := by unfold uintValue32; split <;> omega
   have hkb : ∀ r : Int, ¬ keyBytes r c.length = 0 := by
     intro r
     unfold keyBytes BITS_PER_KEY_BYTE KEY_BYTES_R2
@@ -204,15 +202,15 @@ theorem authenticate_owner_accepts_partial (P : Prims) (hP : PrimsOK P) (c : Cfg
     · rw [if_pos h3]; omega
     · rw [if_neg h3]; omega
   rcases hU with hnone | hsame
-  · simp only [hp', hkb _, if_false, hnone, ho]
+  · simp only [hkb _, if_false, hnone, ho]
   · have heq : authUser P (params234 c v (derive234 P c (pad32 userPw) (pad32 ownerPw) tail).1
             (derive234 P c (pad32 userPw) (pad32 ownerPw) tail).2.1) c.length (uintValue32 c.p) ownerPw
         = authUser P (params234 c v (derive234 P c (pad32 userPw) (pad32 ownerPw) tail).1
             (derive234 P c (pad32 userPw) (pad32 ownerPw) tail).2.1) c.length (uintValue32 c.p) userPw := by
       unfold authUser
       simp only
-      rw [computeKey_is_alg2 P c v _ _ ownerPw hr hp, computeKey_is_alg2 P c v _ _ userPw hr hp, hsame]
-    simp only [hp', hkb _, if_false, heq, hu]
+      rw [computeKey_is_alg2 P c v _ _ ownerPw hr, computeKey_is_alg2 P c v _ _ userPw hr, hsame]
+    simp only [hkb _, if_false, heq, hu]
 
 /-! ## revisions 5 and 6 -/
 
@@ -351,11 +349,21 @@ theorem r6_fuel_suffices (P : Prims) (pw vec k : Bytes) (fuel round last : Nat)
     unfold r6Loop
     split
     · rename_i hc
+      unfold r6_continue at hc
+      simp only [decide_eq_true_eq] at hc
       apply ih
       · exact UInt8.toNat_lt _
       · omega
       · omega
     · simp
+
+/-- **`_r6_password` computes ISO 32000-2 Algorithm 2.B** (8-byte salts): the `while` condition is
+    regenerated from pdfdocument.py on every run (`Gen.Crypt.r6_continue`), as are the repeat count
+    64 and the slices; `_bytes_mod_3` (sum of residues) equals the big-endian integer modulo 3.
+    An edit of the comparison (`>` to `>=`), of a slice or of the count breaks this proof. -/
+theorem r6_password_is_algorithm_2B (P : Prims) (pw salt vec : Bytes) (hs : salt.length ≤ 8) :
+    passwordHash P 6 pw salt vec = alg2B P pw salt vec :=
+  r6_password_is_alg2B P pw salt vec hs
 
 /-- The hash the V5 handler computes never runs out of fuel (`R6_FUEL = 400`). -/
 theorem r6_hash_defined (P : Prims) (pw vec k : Bytes) :
@@ -539,7 +547,7 @@ theorem perms_bits (h : Handler) :
   exact ⟨key h.p 2, key h.p 3, key h.p 4⟩
 
 /-- ... and the stored unsigned value has the same low bits as the signed P of the dictionary. -/
-theorem perms_of_signed_P (p : Int) (hp : -4294967296 ≤ p) :
+theorem perms_of_signed_P (p : Int) :
     (uintValue32 p) % 32 = (p % 32).toNat := by
   unfold uintValue32; split <;> omega
 
@@ -549,7 +557,7 @@ theorem perms_of_signed_P (p : Int) (hp : -4294967296 ≤ p) :
     nor what Algorithm 7 recovers from O with it passes the U check, it is rejected.  (Generic
     form; `C10_rejects_writer_partial` instantiates it for documents of a conforming writer.) -/
 theorem C10_rejects_generic (P : Prims) (prm : Params) (length p : Nat) (cps : List Nat)
-    (hp : p < 4294967296) (hk : keyBytes prm.r length ≠ 0)
+    (hk : keyBytes prm.r length ≠ 0)
     (hu : ∀ b, encodeLatin1 cps = some b → authUser P prm length p b = none)
     (ho : ∀ b, encodeLatin1 cps = some b → authUser P prm length p (recoverUser P prm length b) = none) :
     authenticate234 P prm length p cps = .error .passwordIncorrect := by
@@ -557,8 +565,7 @@ theorem C10_rejects_generic (P : Prims) (prm : Params) (length p : Nat) (cps : L
   cases henc : encodeLatin1 cps with
   | none => rfl
   | some b =>
-    have hp' : ¬ p ≥ 4294967296 := by omega
-    simp only [hp', hk, if_false, hu b henc, authOwner, ho b henc]
+    simp only [hk, if_false, hu b henc, authOwner, ho b henc]
 
 theorem pad32_of_length (x : Bytes) (h : x.length = 32) : pad32 x = x := by
   unfold pad32
@@ -591,7 +598,7 @@ theorem recoverUser_length (P : Prims) (prm : Params) (length : Nat) (q : Bytes)
     Everything else (padding, Algorithm 2, the 20 layers, lengths, the Latin-1 step) is proved. -/
 theorem C10_rejects_writer_partial (P : Prims) (c : Cfg) (v : Int)
     (userPw ownerPw tail : Bytes) (cps : List Nat)
-    (hr : c.r = 2 ∨ c.r = 3 ∨ c.r = 4) (hp : -4294967296 ≤ c.p) (hp0 : c.p ≠ 0) (hp32 : c.p < 4294967296)
+    (hr : c.r = 2 ∨ c.r = 3 ∨ c.r = 4)
     (hl : 8 ≤ c.length)
     (H1 : ∀ q : Bytes, verifyKey P (params234 c v (derive234 P c (pad32 userPw) (pad32 ownerPw) tail).1
               (derive234 P c (pad32 userPw) (pad32 ownerPw) tail).2.1)
@@ -610,12 +617,11 @@ theorem C10_rejects_writer_partial (P : Prims) (c : Cfg) (v : Int)
     intro q hq
     unfold authUser
     simp only
-    rw [computeKey_is_alg2 P c v _ _ q hr hp]
+    rw [computeKey_is_alg2 P c v _ _ q hr]
     split
     · rename_i hv; exact absurd (H1 q hv) hq
     · rfl
   apply C10_rejects_generic
-  · unfold uintValue32; split <;> omega
   · unfold keyBytes BITS_PER_KEY_BYTE KEY_BYTES_R2
     split <;> omega
   · intro b hb; exact hnone b (hw b hb).1
@@ -776,10 +782,10 @@ structure Rand where
 
 def Config.valid (P : Prims) : Config → Passwords → Rand → Prop
   | .base v c, pw, _ =>
-    (v = 1 ∨ v = 2) ∧ (c.r = 2 ∨ c.r = 3) ∧ 8 ≤ c.length ∧ -4294967296 ≤ c.p ∧ c.p ≠ 0 ∧ c.p < 4294967296 ∧
+    (v = 1 ∨ v = 2) ∧ (c.r = 2 ∨ c.r = 3) ∧ 8 ≤ c.length ∧
     encodeLatin1 pw.userCps = some pw.user
   | .v4 c cfName m, pw, _ =>
-    c.r = 4 ∧ c.length = 128 ∧ -4294967296 ≤ c.p ∧ c.p ≠ 0 ∧ c.p < 4294967296 ∧
+    c.r = 4 ∧ c.length = 128 ∧
     (m = .rc4 ∨ m = .aes128 ∨ m = .identity) ∧ cfName ≠ nameIdentity ∧
     encodeLatin1 pw.userCps = some pw.user
   | .v5 r _ cfName _, pw, rnd =>
@@ -829,9 +835,9 @@ theorem C10_open (P : Prims) (hP : PrimsOK P) (cfg : Config) (pw : Passwords) (r
          (if h.cls = 1 then cfg.method = .rc4 else lookup h.strf h.cfm = some cfg.method) := by
   cases cfg with
   | base v c =>
-    obtain ⟨hv', hr, hl, hp, hp0, hp32, henc⟩ := hv
+    obtain ⟨hv', hr, hl, henc⟩ := hv
     have hr' : c.r = 2 ∨ c.r = 3 ∨ c.r = 4 := by rcases hr with h | h <;> simp [h]
-    have ha := authenticate_user_accepts P hP c v pw.userCps pw.user pw.owner rnd.tail hr' hp hp0 hp32 hl henc
+    have ha := authenticate_user_accepts P hP c v pw.userCps pw.user pw.owner rnd.tail hr' hl henc
     refine ⟨{ cls := 1, r := c.r, p := uintValue32 c.p, length := c.length,
               key := (derive234 P c (pad32 pw.user) (pad32 pw.owner) rnd.tail).2.2 }, ?_, rfl, rfl, ?_⟩
     · unfold openHandler
@@ -841,9 +847,9 @@ theorem C10_open (P : Prims) (hP : PrimsOK P) (cfg : Config) (pw : Passwords) (r
         simp [ha]
     · simp [Config.method]
   | v4 c cfName m =>
-    obtain ⟨hr, hl, hp, hp0, hp32, hm, hcf, henc⟩ := hv
+    obtain ⟨hr, hl, hm, hcf, henc⟩ := hv
     have hr' : c.r = 2 ∨ c.r = 3 ∨ c.r = 4 := Or.inr (Or.inr hr)
-    have ha := authenticate_user_accepts P hP c 4 pw.userCps pw.user pw.owner rnd.tail hr' hp hp0 hp32
+    have ha := authenticate_user_accepts P hP c 4 pw.userCps pw.user pw.owner rnd.tail hr'
       (by omega) henc
     rw [hl] at ha
     refine ⟨{ cls := 4, r := 4, p := uintValue32 c.p, length := 128,
@@ -981,8 +987,8 @@ example :
     let d := derive234 toyPrims c (pad32 [117]) (pad32 [111]) (List.replicate 16 7)
     authUser toyPrims (params234 c 2 d.1 d.2.1) 128 (uintValue32 (-1044)) [117] = some d.2.2 ∧
     authOwner toyPrims (params234 c 2 d.1 d.2.1) 128 (uintValue32 (-1044)) [111] = some d.2.2 :=
-  ⟨user_pw_accepts toyPrims toyPrims_ok _ 2 [117] [111] _ (Or.inr (Or.inl rfl)) (by decide),
-   owner_pw_accepts toyPrims toyPrims_ok _ 2 [117] [111] _ (Or.inr (Or.inl rfl)) (by decide)⟩
+  ⟨user_pw_accepts toyPrims toyPrims_ok _ 2 [117] [111] _ (Or.inr (Or.inl rfl)),
+   owner_pw_accepts toyPrims toyPrims_ok _ 2 [117] [111] _ (Or.inr (Or.inl rfl))⟩
 
 /-- The behaviour of the pinned code before the fix: AES plaintext returned with its padding. -/
 def pinnedDecryptAes256 (P : Prims) (key data : Bytes) : Bytes :=
